@@ -663,7 +663,18 @@ class Interp:
                     v = (a << b) & M
                     return v if uns or not (v >> (W - 1)) else v - (1 << W)
                 return (a & M) >> b if (uns or a >= 0) else a >> b
-            signed = "unsigned" not in (n.get("t") or "")
+            tn_ = (n.get("t") or "")
+            if "dependent" in tn_ and kids(n):
+                # the expression's type is not known in the template pattern: the declared type of the shifted object decides
+                tn_ = " ".join((y_.get("t") or "") for y_ in tbf.walk(kids(n)[0]) if y_.get("k") in ("DeclRefExpr", "MemberExpr"))
+            signed = "unsigned" not in tn_ and "size_t" not in tn_
+            if op == "<<" and signed and b > 0:
+                lost = [x_ for x_ in as_bits(a).b[W - b:] if x_ != 0]
+                if lost:
+                    if not hasattr(self, "ub_events"):
+                        self.ub_events = []
+                    self.ub_events.append((n, "signed left shift `%s` by %d moves bits that can be set (%s) beyond bit 63" % (self.facts.ntext(n)[:50], b, ",".join(describe(x_) for x_ in lost[:2]))))
+                    return Undefined("%s: signed left shift `%s` by %d moves bits that can be set (%s) beyond bit 63 - signed overflow" % (self.facts.loc(n), self.facts.ntext(n)[:50], b, ",".join(str(x_) for x_ in lost[:3])))
             return v_shl(a, b) if op == "<<" else v_shr(a, b, signed)
         if conc:
             if op == "/" or op == "%":
